@@ -110,6 +110,23 @@ func (ex *Exec) ioFails(what string) bool {
 	failed := ex.branch(ex.C.Le(st.faultAt, ex.C.IntC(int64(k))))
 	if failed {
 		ex.Note("io-fault", fmt.Sprintf("op %d (%s) fails", k, what))
+		if _, seen := ex.Extra["native:first_fault_kind"]; !seen {
+			// for the native replay: what failed first and how many bytes had reached the file by then
+			kind := 2.0 // a write / flush
+			if strings.HasPrefix(what, "create") || strings.HasPrefix(what, "open") || strings.HasPrefix(what, "3mf create") {
+				kind = 0
+			} else if strings.HasPrefix(what, "seek") || strings.HasPrefix(what, "stat") {
+				kind = 1
+			}
+			ex.Extra["native:first_fault_kind"] = kind
+			bytes := 0
+			for _, f := range st.files {
+				if f.end > bytes {
+					bytes = f.end
+				}
+			}
+			ex.Extra["native:bytes_before_fault"] = float64(bytes)
+		}
 	}
 	return failed
 }
@@ -605,6 +622,7 @@ func init() {
 	}
 	intrinsics["vfTempPath"] = func(fr *frame, args []value) value { return args[0] }
 	intrinsics["vfOutPath"] = func(fr *frame, args []value) value { return args[0] }
+	intrinsics["vfAllocated"] = func(fr *frame, args []value) value { return 0 }
 	intrinsics["vfFaults"] = func(fr *frame, args []value) value {
 		fr.i.ex.impure("vfFaults")
 		fr.i.ex.io().faults = args[0].(bool)
